@@ -12,7 +12,10 @@ def enc(obj):
     if isinstance(obj, list):
         return [enc(x) for x in obj]
     if isinstance(obj, dict):
-        return {str(k): enc(v) for k, v in obj.items()}
+        if all(isinstance(k, str) for k in obj):
+            return {k: enc(v) for k, v in obj.items()}
+        # keys that are not text (bytes parameter / header names): kept as pairs so that a replay rebuilds the same mapping
+        return {"$d": [[enc(k), enc(v)] for k, v in obj.items()]}
     if isinstance(obj, (str, int, float, bool)) or obj is None:
         return obj
     if isinstance(obj, (set, frozenset)):
@@ -29,6 +32,8 @@ def dec(obj):
                 return tuple(dec(x) for x in obj["$t"])
             if "$s" in obj:
                 return set(dec(x) for x in obj["$s"])
+            if "$d" in obj:
+                return {dec(k): dec(v) for k, v in obj["$d"]}
         return {k: dec(v) for k, v in obj.items()}
     if isinstance(obj, list):
         return [dec(x) for x in obj]
